@@ -1,4 +1,7 @@
 (* C10 clauses for the CapacityLimiter machine, over every op sequence. *)
+(* `tainted s = false` (where it appears) excludes exactly one kind of history: release_on_behalf_of(b) was
+   called while the acquire call that obtained b's token had not returned yet (O2).  Duplicate borrowers among
+   concurrent acquire_on_behalf_of calls are covered by every theorem (F16: the second caller is refused). *)
 From AV Require Import Base C10Defs C10Lib Limiter LimiterProofs.
 From Coq Require Import Permutation.
 
@@ -113,35 +116,11 @@ Qed.
 Lemma give_back_nodup s b : NoDup (borrowers s) -> NoDup (borrowers (give_back s b)).
 Proof. intros H. unfold give_back. apply notify_nodup. cbn. now apply nodup_remove_one. Qed.
 
-Lemma step_nodup s o : NoDup (borrowers s) -> NoDup (borrowers (fst (step s o))).
-Proof.
-  intros H. destruct o as [t b|t b|t b|t|t|t v|t k]; unfold step; cbn [step_gen].
-  - destruct (is_idle _); cbn [negb fst]; [|exact H].
-    destruct (mem b (borrowers s)) eqn:E; [exact H|]. apply mem_false in E.
-    destruct (busy s); cbn; [exact H|now constructor].
-  - destruct (is_idle _); cbn [negb fst]; [|exact H].
-    destruct (mem b (borrowers s)) eqn:E; [exact H|]. apply mem_false in E.
-    destruct (busy s); cbn; [exact H|now constructor].
-  - destruct (is_idle _); cbn [negb fst]; [|exact H].
-    destruct (mem b (borrowers s)); cbn [negb fst]; [|exact H]. cbn. now apply give_back_nodup.
-  - destruct (phase_of s t) as [|b|b e]; [exact H| |].
-    + destruct (mustc s t); [|exact H].
-      unfold fy_cancel. destruct (mem b _); cbn [fst]; [|exact H]. now apply give_back_nodup.
-    + destruct (negb (evset s e) && negb (fcanc s t)); cbn [fst]; [exact H|].
-      destruct (fcanc s t || mustc s t); [|exact H].
-      destruct (evset s e); cbn [fst]; [|exact H]. now apply give_back_nodup.
-  - destruct (phase_of s t) as [|b|b e]; [exact H|exact H|].
-    destruct (negb (evset s e) && negb (fcanc s t)); exact H.
-  - destruct (is_idle _); cbn [negb fst]; [|exact H]. unfold set_total.
-    pose proof (wake_free_nodup v (queue s) (borrowers s) (evset s) (resv s) H) as Hn.
-    destruct (wake_free _ _ _ _ _) as [[[q' bs'] ev'] rv']. exact Hn.
-  - destruct (is_idle _); cbn [negb fst]; [|exact H]. destruct k as [|[|[|k]]]; exact H.
-Qed.
+Lemma reach_uinv v s : reach v s -> Uinv s.
+Proof. intros [ops ->]. apply reachable_uinv. Qed.
 
 Theorem lim_borrowers_nodup v s : reach v s -> NoDup (borrowers s).
-Proof.
-  intros [ops ->]. apply (final_inv step (fun s => NoDup (borrowers s))); [apply step_nodup|constructor].
-Qed.
+Proof. intros R. apply (U_bnd _ (U_core _ (reach_uinv v s R))). Qed.
 
 (* ---------- 1. a token is granted only when one is free ---------- *)
 (* every step (of any kind, from any state): either no new borrower appears, or afterwards the borrowers
@@ -153,7 +132,8 @@ Proof.
   cbv zeta. destruct o as [t b|t b|t b|t|t|t v|t k]; unfold step; cbn [step_gen].
   - destruct (is_idle _); cbn [negb fst]; [|now left].
     destruct (mem b (borrowers s)); [now left|].
-    destruct (busy s) eqn:Eb; cbn [fst borrowers total]; [now left|]. right.
+    destruct (busy s) eqn:Eb; [unfold enq_head; destruct (mem b (keys (queue s))); now left|].
+    cbn [fst borrowers total]. right.
     unfold busy in Eb. apply orb_false_l2 in Eb. destruct Eb as [_ Hf]. apply negb_false_iff in Hf.
     apply free_xle in Hf. exact Hf.
   - destruct (is_idle _); cbn [negb fst]; [|now left].
@@ -191,7 +171,8 @@ Proof.
   intros [-> | ->] Hin Hn; unfold step in Hin; cbn [step_gen] in Hin;
     (destruct (is_idle _); cbn [negb fst] in Hin; [|contradiction]);
     (destruct (mem b (borrowers s)); [contradiction|]);
-    destruct (busy s) eqn:Eb; cbn in Hin; try contradiction;
+    (destruct (busy s) eqn:Eb;
+     [try (unfold enq_head in Hin; destruct (mem b (keys (queue s)))); cbn in Hin; contradiction|]);
     unfold busy in Eb; apply orb_false_l2 in Eb; destruct Eb as [Hq Hf];
     apply negb_false_iff in Hf; apply negb_false_iff, is_nil_true in Hq; auto.
 Qed.
@@ -200,7 +181,7 @@ Lemma step_total s o : (forall t v, o <> SetTotal t v) -> total (fst (step s o))
 Proof.
   intros Hne. destruct o as [t b|t b|t b|t|t|t v|t k]; unfold step; cbn [step_gen].
   - destruct (is_idle _); cbn [negb fst]; [|reflexivity]. destruct (mem _ _); [reflexivity|].
-    destruct (busy s); reflexivity.
+    destruct (busy s); [unfold enq_head; destruct (mem b (keys (queue s)))|]; reflexivity.
   - destruct (is_idle _); cbn [negb fst]; [|reflexivity]. destruct (mem _ _); [reflexivity|].
     destruct (busy s); reflexivity.
   - destruct (is_idle _); cbn [negb fst]; [|reflexivity]. destruct (mem _ _); cbn [negb fst]; [|reflexivity].
@@ -316,7 +297,7 @@ Proof.
   destruct o as [t b|t b|t b|t|t|t x|t k]; unfold step; cbn [step_gen]; intros H.
   - destruct (is_idle _); cbn [negb] in H; [|injection H as <- <-; reflexivity].
     destruct (mem _ _); [injection H as <- <-; reflexivity|].
-    destruct (busy s); injection H as <- <-; reflexivity.
+    destruct (busy s); [unfold enq_head in H; destruct (mem b (keys (queue s)))|]; injection H as <- <-; reflexivity.
   - destruct (is_idle _); cbn [negb] in H; [|injection H as <- <-; reflexivity].
     destruct (mem _ _); [injection H as <- <-; reflexivity|].
     destruct (busy s); injection H as <- <-; [reflexivity|]. left. exists t, b. cbn. auto.
@@ -344,8 +325,9 @@ Proof.
 Qed.
 
 (* ---------- 3. first come first served ---------- *)
-Theorem lim_queue_in_arrival_order v s : reach v s -> tainted s = false -> subseq (queue s) (arrivals s).
-Proof. intros R Ht. destruct (reach_inv0 v s R Ht) as [C _]. apply (L_fifo _ C). Qed.
+(* every reachable state, also with duplicate borrowers and after misuse O2 (no `tainted` hypothesis) *)
+Theorem lim_queue_in_arrival_order v s : reach v s -> subseq (queue s) (arrivals s).
+Proof. intros R. apply (U_fifo _ (U_core _ (reach_uinv v s R))). Qed.
 
 Theorem lim_arrival_log_append_only s o : exists l, arrivals (fst (step s o)) = arrivals s ++ l.
 Proof.
@@ -353,7 +335,8 @@ Proof.
   { intros s' E. exists []. now rewrite app_nil_r. }
   destruct o as [t b|t b|t b|t|t|t x|t k]; unfold step; cbn [step_gen].
   - destruct (is_idle _); cbn [negb fst]; [|now apply Hnil]. destruct (mem _ _); [now apply Hnil|].
-    destruct (busy s); cbn [fst arrivals]; [eexists; reflexivity|now apply Hnil].
+    destruct (busy s); [unfold enq_head; destruct (mem b (keys (queue s)))|]; cbn [fst arrivals enqueue];
+      [now apply Hnil|eexists; reflexivity|now apply Hnil].
   - destruct (is_idle _); cbn [negb fst]; [|now apply Hnil]. destruct (mem _ _); [now apply Hnil|].
     destruct (busy s); now apply Hnil.
   - destruct (is_idle _); cbn [negb fst]; [|now apply Hnil]. destruct (mem _ _); cbn [negb fst]; [|now apply Hnil].
@@ -399,13 +382,91 @@ Proof.
   exists pre. cbn. auto.
 Qed.
 
-(* while somebody queues no token is free (no lost wake-up) *)
-Theorem lim_no_free_token_with_waiters v s : reach v s -> tainted s = false ->
+(* while somebody queues no token is free (no lost wake-up): every reachable state, no `tainted` hypothesis *)
+Theorem lim_no_free_token_with_waiters v s : reach v s ->
   queue s <> [] -> free (borrowers s) (total s) = false.
 Proof.
-  intros R Ht Hq. destruct (reach_inv0 v s R Ht) as [_ N]. specialize (N Hq).
+  intros R Hq. pose proof (U_nofree _ (reach_uinv v s R)) as N. specialize (N Hq).
   unfold free. destruct (total s) as [m|]; [|contradiction]. apply Nat.ltb_ge. lia.
 Qed.
+
+(* the wait queue has at most one slot per borrower and a queued borrower holds no token - in EVERY reachable
+   state; and (unless release_on_behalf_of was misused, O2) at most one task is inside an acquire call for a
+   given borrower, duplicates included: the second caller is refused, see lim_waiting_borrower_rejected *)
+Theorem lim_wait_queue_keys_distinct v s : reach v s ->
+  NoDup (keys (queue s)) /\
+  (forall b, In b (keys (queue s)) -> ~ In b (borrowers s)) /\
+  (tainted s = false -> forall t1 t2 b, inprog s t1 b -> inprog s t2 b -> t1 = t2).
+Proof.
+  intros R. pose proof (U_core _ (reach_uinv v s R)) as C.
+  refine (conj (U_qnd _ C) (conj (U_qb _ C) _)). intros Ht. destruct (reach_inv0 v s R Ht) as [C0 _].
+  apply (L_uniq _ C0).
+Qed.
+
+(* a borrower that already has a slot in the wait queue is refused: RuntimeError, nothing changes
+   (acquire_on_behalf_of_nowait keeps answering WouldBlock) *)
+Theorem lim_waiting_borrower_rejected s t b :
+  phase_of s t = Idle -> In b (keys (queue s)) -> ~ In b (borrowers s) ->
+  step s (AcqOn t b) = (s, RRuntime) /\ step s (AcqOnNowait t b) = (s, RWouldBlock).
+Proof.
+  intros Hp Hk Hb. assert (Hbusy : busy s = true).
+  { unfold busy. destruct (queue s); [destruct Hk|reflexivity]. }
+  apply mem_false in Hb. unfold step; cbn [step_gen]. rewrite Hp, Hb, Hbusy. cbn [is_idle negb].
+  unfold enq_head. apply mem_In in Hk. rewrite Hk. auto.
+Qed.
+
+(* the same in terms of tasks: while some task waits (without a token) on behalf of b, every further
+   acquire_on_behalf_of(b) is refused and leaves the state unchanged *)
+Theorem lim_second_waiter_rejected v s t u b e : reach v s -> tainted s = false ->
+  phase_of s u = Waiting b e -> evset s e = false -> phase_of s t = Idle ->
+  step s (AcqOn t b) = (s, RRuntime).
+Proof.
+  intros R Ht Hu He Hp. destruct (reach_inv0 v s R Ht) as [C _].
+  assert (Hin : In (b, e) (queue s)) by (apply (L_q _ C); split; eauto).
+  apply lim_waiting_borrower_rejected; [exact Hp|eapply in_keys; eauto|].
+  apply (L_qb _ C). eapply in_keys; eauto.
+Qed.
+
+(* no lost waiter: a task that is blocked without a token owns a slot of the wait queue, and no token is free *)
+Theorem lim_no_lost_waiter v s t b e : reach v s -> tainted s = false ->
+  phase_of s t = Waiting b e -> evset s e = false ->
+  In (b, e) (queue s) /\ free (borrowers s) (total s) = false.
+Proof.
+  intros R Ht Hp He. destruct (reach_inv0 v s R Ht) as [C _].
+  assert (Hin : In (b, e) (queue s)) by (apply (L_q _ C); split; eauto).
+  split; [exact Hin|]. apply (lim_no_free_token_with_waiters v s R). intros E. rewrite E in Hin. destruct Hin.
+Qed.
+
+(* F16 (fixed in /repo by 44feca9): before the fix the second waiter for a borrower overwrote the first one's
+   slot.  Witness A ("restart"): total 1 taken by 12; task 1 waits for 11 and is cancelled; in the same cycle
+   task 2 asks for 11 and overwrites the slot; task 1's cancellation handler pops the slot (now task 2's);
+   12 is released: task 2 stays blocked for ever with an empty queue and a free token.
+   Witness B (two plain waiters): the token released by 12 goes to the SECOND caller (task 2) while the first
+   one (task 1) has lost its slot: tasks_waiting = 0 with task 1 blocked. *)
+Definition f16a_ops : list op :=
+  [AcqOnNowait 3 12; AcqOn 1 11; Cancel 1; AcqOn 2 11; Resume 1; RelOn 3 12].
+Definition f16b_ops : list op :=
+  [AcqOnNowait 3 12; AcqOn 1 11; AcqOn 2 11; RelOn 3 12].
+
+Theorem lim_duplicate_waiter_refuted_pinned :
+  (exists ops, let s := final step_f16_pinned (init (Some 1)) ops in
+     phase_of s 2 = Waiting 11 1 /\ evset s 1 = false /\ fcanc s 2 = false /\ mustc s 2 = false /\
+     queue s = [] /\ borrowers s = [] /\ free (borrowers s) (total s) = true /\ phase_of s 1 = Idle) /\
+  (exists ops, let s := final step_f16_pinned (init (Some 1)) ops in
+     phase_of s 1 = Waiting 11 0 /\ evset s 0 = false /\ phase_of s 2 = Waiting 11 1 /\ evset s 1 = true /\
+     arrivals s = [(11, 0); (11, 1)] /\ queue s = [] /\ borrowers s = [11]).
+Proof.
+  split; [exists f16a_ops|exists f16b_ops]; vm_compute; auto 10.
+Qed.
+
+Example f16_fixed_at_head :
+  let sa := final step (init (Some 1)) f16a_ops in
+  let sb := final step (init (Some 1)) f16b_ops in
+  snd (step (final step (init (Some 1)) [AcqOnNowait 3 12; AcqOn 1 11; Cancel 1]) (AcqOn 2 11)) = RRuntime /\
+  phase_of sa 2 = Idle /\ phase_of sa 1 = Idle /\ borrowers sa = [] /\ queue sa = [] /\ tainted sa = false /\
+  phase_of sb 2 = Idle /\ phase_of sb 1 = Waiting 11 0 /\ evset sb 0 = true /\ borrowers sb = [11] /\
+  tainted sb = false.
+Proof. vm_compute. auto 15. Qed.
 
 (* ---------- 4. cancellation conserves the tokens ---------- *)
 (* (a) the wait is cancelled and no token was granted: only the queue entry disappears *)
@@ -522,6 +583,8 @@ Proof.
 Qed.
 
 (* ---------- 7. after everyone has released the limiter is pristine ---------- *)
+(* for every op sequence, duplicate borrowers included; `tainted s = false` only excludes histories in which
+   release_on_behalf_of(b) was called before b's acquire returned (O2) *)
 Theorem lim_quiescent_initial v s : reach v s -> tainted s = false ->
   (forall t, phase_of s t = Idle) -> held s = [] ->
   borrowers s = [] /\ queue s = [] /\ resv s = [] /\ avail_code s = match total s with None => inf_code | Some n => nz n end.
@@ -598,3 +661,13 @@ Proof.
   vm_compute. repeat split.
   intros t Ht. do 5 (destruct t as [|t]; [reflexivity|]). lia.
 Qed.
+
+Example ex_waiting_borrower_hyp :
+  let s := final step (init (Some 1)) [AcqOnNowait 3 12; AcqOn 1 11] in
+  tainted s = false /\ phase_of s 2 = Idle /\ In 11 (keys (queue s)) /\ ~ In 11 (borrowers s) /\
+  phase_of s 1 = Waiting 11 0 /\ evset s 0 = false.
+Proof.
+  vm_compute. refine (conj eq_refl (conj eq_refl (conj _ (conj _ (conj eq_refl eq_refl))))); [now left|].
+  intros [H|[]]. discriminate.
+Qed.
+
